@@ -119,6 +119,14 @@ func corpus() []Scenario {
 	// C24: lookup; force close; return; invoke
 	r = append(r, Scenario{"corpus:lookup-close-return-invoke", onePlan(3), cat(toWait,
 		Decision{T: "res", M: id, V: 780}, Decision{T: "fclose"}, step("x0"), fin("c0"), fin("n0")), 1})
+	// C24: force close while the handler has claimed the call but not yet stored its outcome
+	// (decode fails / rpc error / decode succeeds): Do must not report an outcome it has not got
+	r = append(r, Scenario{"corpus:claimed-close-decode-fails", onePlan(3), cat(toWait,
+		Decision{T: "res", M: id, Bad: true}, until("n0", "rpc.handler.claimed"), Decision{T: "fclose"}, step("x0"), fin("c0"), fin("n0"), fin("c0")), 1})
+	r = append(r, Scenario{"corpus:claimed-close-rpc-error", onePlan(3), cat(toWait,
+		Decision{T: "err", M: id, Code: 500}, until("n0", "rpc.handler.claimed"), Decision{T: "fclose"}, step("x0"), fin("c0"), fin("n0"), fin("c0")), 1})
+	r = append(r, Scenario{"corpus:claimed-close-result", onePlan(3), cat(toWait,
+		Decision{T: "res", M: id, V: 784}, until("n0", "rpc.handler.claimed"), Decision{T: "fclose"}, step("x0"), fin("c0"), fin("n0"), fin("c0")), 1})
 	// C25: ack delivered and timer ready before the select is evaluated (the runtime picks)
 	for i := 0; i < 8; i++ {
 		r = append(r, Scenario{"corpus:ack-and-timer-ready", onePlan(3),
@@ -201,6 +209,9 @@ func injections(sc Scenario) [][]Decision {
 		{{T: "err", M: id, Code: 303}, {T: "cancel", C: 0}},
 		{{T: "fire", C: 0}},
 		{{T: "res", M: id + 5000, V: 1}}, // foreign id
+		{{T: "res", M: id, Bad: true}, until("", "rpc.handler.claimed"), {T: "fclose"}},
+		{{T: "err", M: id, Code: 304}, until("", "rpc.handler.claimed"), {T: "cancel", C: 0}},
+		{{T: "res", M: id, V: 97}, until("", "rpc.handler.claimed"), {T: "fire", C: 0}},
 	}
 }
 
@@ -312,6 +323,7 @@ func hash(s string) string {
 
 // Main is the body of cmd/c24, cmd/c25, cmd/c26.
 func Main(prop string) {
+	reexecForRaceLog(outDirFromArgs())
 	c := hx.Start(prop, "Run.Check_"+prop, 100)
 	report := func(sc Scenario, s *Sim, stranded []string, emit bool) {
 		c.Obs.Evaluations++
@@ -351,6 +363,22 @@ func Main(prop string) {
 
 	var rp Scenario
 	if c.LoadReplay(&rp) {
+		if strings.HasPrefix(rp.Family, "duplicate-delivery-stress") || strings.HasPrefix(rp.Family, "free-running") {
+			// not a step-by-step schedule: re-run the concurrent families under the oracles
+			free(c, prop)
+			dupStress(c, prop)
+			for _, r := range raceReports(c.Out) {
+				c.Violate("data-race", "the race detector reports a data race inside the engine: "+r, -1, 0, nil)
+			}
+			for _, v := range c.Obs.Violations {
+				fmt.Printf("ORACLE %s: %s: %s\n", prop, v.Sig, v.Desc)
+			}
+			if len(c.Obs.Violations) == 0 {
+				fmt.Println("ORACLE: no violation in the concurrent families")
+			}
+			c.Finish()
+			return
+		}
 		// the Go runtime's choice among ready select cases is not controlled: retry until the verdict reproduces
 		for try := 0; try < 64; try++ {
 			s, stranded := Run(rp)
@@ -427,6 +455,13 @@ func Main(prop string) {
 		c.Note("generation stopped early: 3 goroutines never reached their next scheduling point")
 	} else {
 		free(c, prop)
+		dupStress(c, prop)
+	}
+	for _, r := range raceReports(c.Out) {
+		{
+			c.Violate("data-race", "the race detector reports a data race inside the engine: "+r, -1, 0,
+				map[string]interface{}{"family": "free-running", "report": r, "how": "go build -race; free-running and duplicate-delivery-stress families"})
+		}
 	}
 	c.Obs.Rule = "single-stepped runs of a real rpc.Engine (fake clock, injected send/drop, 1-4 concurrent Do calls): forced witness schedules, close/cancel/result/ack/timer injected at every scheduling point of 7 baseline histories, and random schedules; non-trivial = distinct event sequence in which the steps of at least one goroutine are interleaved with another goroutine's steps"
 	c.Finish()
